@@ -77,6 +77,13 @@ _safe_text = st.one_of(st.sampled_from(["x", "name", "é", "a b", "", "text/plai
 _ints = st.one_of(st.integers(-3, 100), st.sampled_from([0, 1, 2**31, 2**53 - 1]))
 
 
+def _snake(v: str) -> str:
+    return "".join("_" + c.lower() if c.isupper() else c for c in v).lstrip("_")
+
+
+_SPELLINGS = (_snake, str.lower, lambda v: _snake(v).replace("_", "-"), lambda v: _snake(v).upper())
+
+
 def value_strategy(ann: Any, cls: type, fname: str, depth: int, ge=None, le=None):
     from chuk_mcp.protocol.mcp_pydantic_base import McpPydanticBase
 
@@ -109,7 +116,13 @@ def value_strategy(ann: Any, cls: type, fname: str, depth: int, ge=None, le=None
         return st.sampled_from(list(args))
     if origin is typing.Union:
         arms = [a for a in args if a is not type(None)]
-        return st.one_of([value_strategy(a, cls, fname, depth, ge, le) for a in arms])
+        strats = [value_strategy(a, cls, fname, depth, ge, le) for a in arms]
+        lits = [v for a in arms if typing.get_origin(a) is typing.Literal for v in typing.get_args(a) if isinstance(v, str)]
+        if lits and str in arms:
+            # an open enumeration ("one of these, or any string"): other spellings of the known words are valid
+            # wire values too and must come back as they were sent
+            strats.append(st.sampled_from(sorted({f(v) for v in lits for f in _SPELLINGS} - set(lits))))
+        return st.one_of(strats)
     if origin in (list, List):
         inner = value_strategy(args[0], cls, fname, depth - 1, ge, le) if args else json_values(3)
         return st.lists(inner, max_size=3)
